@@ -13,8 +13,10 @@ from . import common, gen, odsio, pool, tlc
 from .rp2api import EXCHANGES, HOLDERS
 
 K_REAL = {"asset": "B1", "assets": ["B1", "B2", "B3"], "exchanges": list(EXCHANGES.values()), "holders": list(HOLDERS.values())}
-# units with at most 11 decimals whose product (the unit of fiat columns) also has at most 11 decimals; every value stays below 1e4
-UNITS11 = [("0.00000000001", "1"), ("0.12345", "1.000007"), ("0.5", "10"), ("0.001", "0.00000001"), ("19.99999", "0.000101"), ("1", "0.00000000001")]
+# units with at most 11 decimals whose product (the unit of fiat columns) also has at most 11 decimals; small values, and values with
+# a large integer part next to many decimals (more than 11 significant digits, which a double still carries exactly enough)
+UNITS11 = [("0.00000000001", "1"), ("0.12345", "1.000007"), ("0.5", "10"), ("0.001", "0.00000001"), ("19.99999", "0.000101"), ("1", "0.00000000001"),
+           ("250000.1234567", "0.0001"), ("12345.678901", "1234.5"), ("0.00000001", "43210.987")]
 
 ASSUMPTIONS = [
     "reading/writing ODS XML is ezodf (the library rp2 itself uses); cells are written into exactly the columns the abstract sheet names",
@@ -183,17 +185,72 @@ def faults_for_row(tbl, lay):
     return fs
 
 
+OPTIONAL_NUMERIC = {"in": ["fiat_in_no_fee", "fiat_in_with_fee"], "out": ["crypto_out_with_fee", "fiat_out_no_fee", "fiat_fee"], "intra": ["spot_price"]}
+
+
+def fill_optionals(cells, tbl, lay):
+    """every empty optional numeric cell of a valid row gets a valid value consistent with the row (the row stays valid)"""
+    def val(f):
+        c = cells[lay[f]] if f in lay else None
+        return c["n"] if c is not None and c["k"] == "n" else 0
+
+    fill = {}
+    if tbl == "in":
+        fill = {"fiat_in_no_fee": val("crypto_in") * val("spot_price"), "fiat_in_with_fee": val("crypto_in") * val("spot_price") + val("fiat_fee") + val("crypto_fee") * val("spot_price")}
+    elif tbl == "out":
+        fill = {"crypto_out_with_fee": val("crypto_out_no_fee") + val("crypto_fee"), "fiat_out_no_fee": val("crypto_out_no_fee") * val("spot_price"), "fiat_fee": val("crypto_fee") * val("spot_price")}
+    else:
+        fill = {"spot_price": 3}
+    for f, v in fill.items():
+        if f in lay and cells[lay[f]]["k"] == "e" and v > 0:
+            _set(cells[lay[f]], k="n", n=v)
+
+
+def structural_faults(rows0):
+    """(name, rows): one structural fault injected into a valid sheet - whether the result is malformed is decided by the specification"""
+    res = []
+    begins = [i for i, r in enumerate(rows0) if r["k"] == "begin"]
+    ends = [i for i, r in enumerate(rows0) if r["k"] == "end"]
+    datas = [i for i, r in enumerate(rows0) if r["k"] == "data"]
+    for b in begins:
+        e = min(x for x in ends if x > b)
+        tbl = rows0[b]["tbl"]
+        block = copy.deepcopy(rows0[b:e + 1])
+        res.append((f"repeated_{tbl}_table_after_itself", rows0[:e + 1] + block + rows0[e + 1:]))
+        res.append((f"repeated_{tbl}_table_at_end", rows0 + [{"k": "blank", "tbl": "", "cells": []}] + block))
+        res.append((f"missing_end_of_{tbl}_table", rows0[:e] + rows0[e + 1:]))
+        other = "out" if tbl != "out" else "intra"
+        res.append((f"{other}_keyword_inside_{tbl}_table", rows0[:e] + [{"k": "begin", "tbl": other, "cells": []}] + rows0[e:]))
+        res.append((f"blank_row_inside_{tbl}_table", rows0[:e] + [{"k": "blank", "tbl": "", "cells": []}] + rows0[e:]))
+        if tbl == "in":
+            res.append(("in_table_without_rows", rows0[:b + 2] + rows0[e:]))
+            res.append(("no_in_table", rows0[:b] + rows0[e + 1:]))
+    if datas:
+        res.append(("data_row_after_last_table", rows0 + [copy.deepcopy(rows0[datas[0]])]))
+        res.append(("data_row_before_first_table", [copy.deepcopy(rows0[datas[0]])] + rows0))
+    res.append(("table_end_outside_a_table", rows0 + [{"k": "end", "tbl": "", "cells": []}]))
+    res.append(("text_outside_a_table", rows0 + [{"k": "junk", "tbl": "", "cells": []}]))
+    return res
+
+
 def fault_jobs(rnd, tier):
     jobs = []
     lay = odsio.default_layout()
     hs, dist, trans, _ = gen.histories("F", 3)
     hs2, dist2, trans2, _ = gen.histories("T", 2)
+    hs3, dist3, trans3, _ = gen.histories("V", 3)
     full = [h for h in hs if len(h) == 3 and {x["cls"] for x in h} >= {"in", "out"}] + [h for h in hs2 if len(h) == 2 and any(x["cls"] == "intra" for x in h)]
-    bases = rnd.sample(full, 12 if tier == "quick" else 80)
+    feeonly = [h for h in hs if len(h) >= 2 and all(x["fee"] > 0 for x in h if x["cls"] == "in")]      # every acquisition carries a crypto fee
+    supplied = [h for h in hs3 if len(h) == 3 and any(x["cls"] == "out" and x["vout"] >= 0 for x in h)]   # exchange-supplied fiat values
+    n = 12 if tier == "quick" else 80
+    bases = rnd.sample(full, n) + rnd.sample(feeonly, min(len(feeonly), max(2, n // 4))) + rnd.sample(supplied, min(len(supplied), max(3, n // 4)))
+    dist, trans = dist + dist3, trans + trans3
     for h in bases:
         rows0 = odsio.sheet_rows(h, lay, None)
         for r in rows0:
             r.pop("pos", None)
+        for name, rows in structural_faults(rows0):
+            jobs.append({"kind": "sheet", "K": K_REAL, "L": lay, "rows": copy.deepcopy(rows), "conc": {"U": "0.5", "P": "10"}, "tag": f"fault:structure:{name}"})
         tbl = None
         for i, r in enumerate(rows0):
             if r["k"] == "begin":
@@ -204,6 +261,12 @@ def fault_jobs(rnd, tier):
                 rows = copy.deepcopy(rows0)
                 mut(rows[i]["cells"][lay[tbl][field]])
                 jobs.append({"kind": "sheet", "K": K_REAL, "L": lay, "rows": rows, "conc": {"U": "0.5", "P": "10"}, "tag": f"fault:{name}:row{i + 1}"})
+                # the same single fault on the row with every optional numeric cell filled in
+                rows = copy.deepcopy(rows0)
+                fill_optionals(rows[i]["cells"], tbl, lay[tbl])
+                if rows[i]["cells"] != rows0[i]["cells"] and not field.startswith(("fiat_", "crypto_out_with_fee")):
+                    mut(rows[i]["cells"][lay[tbl][field]])
+                    jobs.append({"kind": "sheet", "K": K_REAL, "L": lay, "rows": rows, "conc": {"U": "0.5", "P": "10"}, "tag": f"fault:{name}:optionals_filled:row{i + 1}"})
             # relational faults
             cells = rows0[i]["cells"]
             if tbl == "in" and cells[lay[tbl]["crypto_fee"]]["k"] == "e":
